@@ -718,6 +718,116 @@ def visible_ascii(r, n=None):
     return "".join(chr(r.randrange(0x21, 0x7f)) for _ in range(n))
 
 
+def pct_decode(s):
+    out = bytearray()
+    i = 0
+    b = s.encode("latin-1", "replace")
+    while i < len(b):
+        if b[i] == 0x25:
+            if i + 2 >= len(b) + 0 and i + 2 > len(b) - 1:
+                return None
+            try:
+                out.append(int(b[i + 1:i + 3].decode(), 16))
+            except ValueError:
+                return None
+            i += 3
+        else:
+            out.append(b[i])
+            i += 1
+    try:
+        return out.decode("utf-8")
+    except UnicodeDecodeError:
+        return None
+
+
+def plain_equal(wire, v, text):
+    """Does PLAIN `text` denote the value v (spelling-insensitive for doubles and datetimes)."""
+    import math
+    u = wire.unalias(v)
+    if text is None:
+        return False
+    if u[0] == "dbl":
+        x = u[1]
+        if math.isnan(x):
+            return text == "NaN"
+        if math.isinf(x):
+            return text == ("Infinity" if x > 0 else "-Infinity")
+        try:
+            return float(text) == x and text.lower() not in ("inf", "-inf", "nan")
+        except ValueError:
+            return False
+    if u[0] == "time":
+        return wire.parse_time(text) == tuple(u[1])
+    return text == plain_text(wire, v)
+
+
+def check_uri_shape(wire, c, e, vals, uri):
+    """Independent RFC 3986 split of the URI a generated client built: segment count, literal
+    segments, one key=value pair per supplied value in order, values decode back exactly."""
+    if "#" in uri:
+        return "fragment: " + uri[:120]
+    path, _, q = uri.partition("?")
+    segs = path.split("/")[1:]
+    tmpl = e["httpPath"].split("/")[1:]
+    if len(segs) != len(tmpl):
+        return "segment-count: %d vs template %d" % (len(segs), len(tmpl))
+    for got, want in zip(segs, tmpl):
+        d = pct_decode(got)
+        if d is None:
+            return "bad-escape-in-path: " + got[:60]
+        if want.startswith("{"):
+            an = want[1:-1]
+            v = vals[an][0]
+            if not plain_equal(wire, v, d):
+                return "path-value-altered: %r vs %r" % (d, plain_text(wire, v))
+        elif d != want:
+            return "literal-segment-altered: %r vs %r" % (d, want)
+    expected = []     # (key, [values], is_set)
+    for a in e["args"]:
+        if a["paramType"]["type"] != "query":
+            continue
+        key = a["paramType"]["query"]["paramId"]
+        u = wire.unalias(vals[a["argName"]][0])
+        if u[0] == "opt":
+            if u[1] is not None:
+                expected.append((key, [u[1]], False))
+        elif u[0] in ("list", "set"):
+            expected.append((key, list(u[1]), u[0] == "set"))
+        else:
+            expected.append((key, [vals[a["argName"]][0]], False))
+    pairs = q.split("&") if q else []
+    n_expected = sum(len(v) for _, v, _ in expected)
+    if len(pairs) != n_expected:
+        return "query-pair-count: %d vs %d supplied values" % (len(pairs), n_expected)
+    i = 0
+    for key, values, is_set in expected:
+        got_vals = []
+        for _ in values:
+            k, eq, v = pairs[i].partition("=")
+            i += 1
+            if not eq:
+                return "query-pair-without-equals: " + pairs[i - 1][:60]
+            if "+" in v:
+                return "raw-plus-in-query-value: " + v[:60]
+            dk, dv = pct_decode(k), pct_decode(v)
+            if dk != key:
+                return "query-key-altered: %r vs %r" % (dk, key)
+            got_vals.append(dv)
+        if is_set:
+            # a set is emitted in the set's own order: match as a multiset
+            left = list(values)
+            for g in got_vals:
+                hit = next((x for x in left if plain_equal(wire, x, g)), None)
+                if hit is None:
+                    return "query-value-altered: %r not among the set's values" % (g,)
+                left.remove(hit)
+        else:
+            for g, x in zip(got_vals, values):
+                if not plain_equal(wire, x, g):
+                    return "query-value-altered: %r vs %r" % (g, plain_text(wire, x))
+    return None
+
+
 def services_stage(prop, tier, seed, replay):
     import wire
     from gen import LabGen, Profile
@@ -821,6 +931,14 @@ def services_stage(prop, tier, seed, replay):
             calls = out.get("calls", [])
             if "panic" in result or "harness_error" in out:
                 fail("panic")
+                continue
+            if prop == "C07":
+                # URI structure of what the generated client handed to the transport
+                bad = check_uri_shape(wire, c, e, vals, out.get("uri") or "")
+                if bad:
+                    det["uri"] = out.get("uri")
+                    det["mismatch"] = bad
+                    fail("uri:" + bad.split(":")[0])
                 continue
             if "ok" not in result:
                 fail("call-failed")
